@@ -260,12 +260,6 @@ func (g *graph) Exist(ctx context.Context, t *triple.Triple) (bool, error) {
 	return b, err
 }
 
-func str(x fmt.Stringer) string {
-	if x == nil {
-		return "nil"
-	}
-	return x.String()
-}
 
 func (g *graph) Objects(ctx context.Context, s *node.Node, p *predicate.Predicate, lo *storage.LookupOptions, out chan<- *triple.Object) error {
 	c, mode, j := g.s.begin("Objects", "stream", g.id, s.String()+" "+p.String()+" "+lo.String())
